@@ -183,6 +183,94 @@ def alpha(f: Func, slots: Dict[str, str]) -> str:
     return ast.dump(ast.Module(body=node.body, type_ignores=[]))
 
 
+def select_kwargs_ok(sk: Func) -> bool:
+    """select_kwargs(kwargs, keys) denotes {k: v for k, v in kwargs.items() if k in keys}"""
+    w = walk_function(sk.node)
+    kp, ks = [a.arg for a in sk.node.args.args[:2]]
+    rets = [e for e in w.events if e.kind == 'return' and e.value is not None]
+    if len(rets) != 1:
+        return False
+    v = w.expand(rets[0].value)
+    if not (isinstance(v, ast.DictComp) and len(v.generators) == 1):
+        return False
+    g = v.generators[0]
+    if not (isinstance(g.target, ast.Tuple) and len(g.target.elts) == 2 and
+            all(isinstance(t, ast.Name) for t in g.target.elts)):
+        return False
+    k, val = (t.id for t in g.target.elts)
+    conds = [src(c) for c in g.ifs]
+    return src(g.iter) == f'{kp}.items()' and src(v.key) == k and src(v.value) == val and \
+        conds == [f'{k} in {ks}']
+
+
+def factory_denotation(f: Func, slots: Dict[str, str]) -> Dict[str, Any]:
+    """what a `factory(name, **kwargs)` does, independent of how it names intermediate values:
+    the order of the pipeline calls, the arguments of the required-key check and the returned
+    partial application, locals expanded, comprehension variables and role slots normalised"""
+    w = walk_function(f.node)
+
+    def rebound(e: ast.AST) -> ast.AST:
+        """parameters re-assigned once before use (`kwargs = select_kwargs(kwargs, ..)`)"""
+        mp = {}
+        for p_ in w.params:
+            ds = [d for d in w.defs.get(p_, []) if d[0] == 'value']
+            if len(ds) == 1 and len(w.defs.get(p_, [])) == 1 and not ds[0][4]:
+                mp[p_] = w.expand(ds[0][1])
+        if not mp:
+            return e
+
+        class S(ast.NodeTransformer):
+            def visit_Name(self, n):
+                if isinstance(n.ctx, ast.Load) and n.id in mp:
+                    return copy.deepcopy(mp[n.id])
+                return n
+        return S().visit(copy.deepcopy(e))
+
+    def canon(e: ast.AST) -> str:
+        e = copy.deepcopy(e)
+        k = [0]
+        for n in ast.walk(e):
+            if isinstance(n, (ast.ListComp, ast.SetComp, ast.GeneratorExp, ast.DictComp)):
+                ren = {}
+                for g in n.generators:
+                    for t in ast.walk(g.target):
+                        if isinstance(t, ast.Name):
+                            ren[t.id] = f'_v{k[0]}'
+                            k[0] += 1
+                for m in ast.walk(n):
+                    if isinstance(m, ast.Name) and m.id in ren:
+                        m.id = ren[m.id]
+        for n in ast.walk(e):
+            if isinstance(n, ast.Name):
+                n.id = slots.get(n.id, n.id)
+            if isinstance(n, ast.Attribute) and isinstance(n.value, ast.Name) and \
+                    n.value.id == 'functools':
+                n.value.id = '__functools__'
+        return src(e).replace('__functools__.', '')
+    order = []
+    check = None
+    for e in w.events:
+        if e.kind == 'call':
+            fs = src(e.node.func)
+            if fs == 'functools.partial':
+                fs = 'partial'
+            if fs in ('import_if_custom', 'checkraise_kwargs', 'select_kwargs', 'partial',
+                      'inspect.signature'):
+                order.append(fs)
+            if fs == 'checkraise_kwargs':
+                check = canon(w.expand(e.node))
+        if e.kind == 'load' and src(e.node.value).endswith('_function_registry'):
+            order.append('lookup')
+    rets = [e for e in w.events if e.kind == 'return' and e.value is not None]
+    ret = [canon(w.expand(rebound(r.value))) for r in rets]
+    raises = [(sorted(t for t in e.in_try) if hasattr(e, 'in_try') else [],
+               src(e.value).split('(')[0] if e.value is not None else '')
+              for e in w.events if e.kind == 'raise']
+    lookups = [canon(w.expand(e.node)) for e in w.events if e.kind == 'load'
+               and src(e.node.value).endswith('_function_registry')]
+    return {'order': order, 'check': check, 'ret': ret, 'raises': raises, 'lookups': lookups}
+
+
 def _str_eval(e: ast.AST, env: Dict[str, str], mod) -> str:
     """value of a string expression over known names (constants of the module, loop
     variables): literals, names, f-strings without format specs, +, TABLE[key]"""
@@ -392,12 +480,13 @@ def run(index: RepoIndex, rep) -> None:
     facts = {r: index.func(ROLE_FILE[r], 'factory') for r in N_PROTOCOL}
     norm = {}
     for r, f in facts.items():
-        norm[r] = alpha(f, {f'{r}_function_registry': 'REGISTRY'})
+        norm[r] = factory_denotation(f, {f'{r}_function_registry': 'REGISTRY'})
     base = norm['reset']
     for r, f in sorted(facts.items()):
-        rep.check(norm[r] == base, 'C17.R4', ROLE_FILE[r], 'factory', f.node.lineno,
+        diff = [k for k in base if norm[r][k] != base[k]]
+        rep.check(not diff, 'C17.R4', ROLE_FILE[r], 'factory', f.node.lineno,
                   f'{r} factory', f'the {r} factory differs from its five siblings beyond the '
-                  f'registry and the error text', f'{r} factory sibling-equal')
+                  f'registry and the error text (in {diff})', f'{r} factory sibling-equal')
     f = facts['reset']
     w = walk_function(f.node)
     order = []
@@ -422,13 +511,14 @@ def run(index: RepoIndex, rep) -> None:
     rep.check(ok, 'C17.R4', ROLE_FILE['reset'], 'factory', f.node.lineno,
               '; '.join(src(e.stmt)[:60] for e in raises),
               'an unknown component name is not turned into ValueError', 'KeyError -> ValueError')
-    txt = src(f.node)
-    ok = 'if parameter.default is inspect.Parameter.empty' in txt and \
-        'if parameter.default is not inspect.Parameter.empty' in txt and \
-        'checkraise_kwargs(kwargs, required_keys)' in txt and \
-        'kwargs = select_kwargs(kwargs, required_keys + optional_keys)' in txt and \
-        'return partial(function, **kwargs)' in txt
-    rep.check(ok, 'C17.R4', ROLE_FILE['reset'], 'factory', f.node.lineno, 'factory body',
+    FN = base['lookups'][0] if base['lookups'] else 'function'
+    params_e = f'REGISTRY.get_nonprotocol_parameters(inspect.signature({FN}))'
+    REQ = f'[_v0.name for _v0 in {params_e} if _v0.default is inspect.Parameter.empty]'
+    OPT = f'[_v1.name for _v1 in {params_e} if _v1.default is not inspect.Parameter.empty]'
+    ok = base['check'] == f'checkraise_kwargs(kwargs, {REQ})' and \
+        base['ret'] == [f'partial({FN}, **select_kwargs(kwargs, {REQ} + {OPT}))']
+    rep.check(ok, 'C17.R4', ROLE_FILE['reset'], 'factory', f.node.lineno,
+              f'{base["check"]}; {base["ret"]}'[:300],
               'the required/optional split, the required-key check, the key selection or the '
               'partial application deviates from the documented factory', 'factory steps')
     ck = index.func(FUNCS, 'checkraise_kwargs')
@@ -443,11 +533,8 @@ def run(index: RepoIndex, rep) -> None:
               'checkraise_kwargs does not raise ValueError for every missing required key',
               'missing key -> ValueError')
     sk = index.func(FUNCS, 'select_kwargs')
-    b = sk.body()
-    kp, ks = [a.arg for a in sk.node.args.args[:2]]
-    rep.check(len(b) == 1 and src(b[0]) ==
-              f'return {{key: value for key, value in {kp}.items() if key in {ks}}}', 'C17.R4',
-              FUNCS, 'select_kwargs', sk.node.lineno, src(b[-1]),
+    rep.check(select_kwargs_ok(sk), 'C17.R4',
+              FUNCS, 'select_kwargs', sk.node.lineno, 'select_kwargs',
               'select_kwargs does not keep exactly the accepted keys', 'select_kwargs')
     for r in N_PROTOCOL:
         regc = [c for c in index.module(ROLE_FILE[r]).classes.values()
